@@ -53,7 +53,8 @@ def run(prop, tier, cfg):
                 pm = re.search(r"thread '[^']*%s'[^\n]*panicked at ([^\n]*)\n([^\n]*)" % re.escape(t['name']), txt)
                 msg = ('%s\n%s' % (pm.group(1), pm.group(2)) if pm else '')[:1500]
                 if t.get('props') and prop not in t['props']:
-                    pass
+                    # the contract belongs to other properties: for this one the unit's foundation is in doubt, nothing more
+                    out['undecided'].append('bounded check %s of a contract this unit assumes fails (a violation of %s; for %s the unit is in doubt): %s' % (t['name'], ','.join(t['props']), prop, msg.replace('\n', ' ')[:200]))
                 else:
                     out['violations'].append({
                         'obligation': 'native/%s' % t['name'], 'unit': 'native', 'fn': t['name'], 'clause': t['name'], 'kind': 'native-assertion',
